@@ -1,4 +1,5 @@
 import logging
+import math
 from typing import List
 from .assignment import Assignment, Suspend, ExecutionResult
 from .container import Container
@@ -94,7 +95,8 @@ class ResourcePool:
 
     def _reconcile_consumed_ram(self):
         """Recalculate consumed_ram_gb from scratch to correct floating point drift."""
-        self.consumed_ram_gb = sum(c.get_current_memory_usage() for c in self.active_containers)
+        # fsum: the correctly rounded sum, independent of the order of the containers
+        self.consumed_ram_gb = math.fsum(c.get_current_memory_usage() for c in self.active_containers)
 
     def _run_out_of_memory_killer(self):
         """The OOM killer kills activate containers when (a) a
@@ -113,6 +115,17 @@ class ResourcePool:
         for c in self.active_containers:
             if c.get_current_memory_usage() > c.assignment.ram:
                 c.kill("OOM")
+
+        # Without overcommit the allocations fit into the pool and every
+        # surviving container is within its allocation, so usage cannot
+        # exceed capacity; only rounding noise could claim otherwise.
+        if not self.allow_memory_overcommit:
+            return
+
+        # The incrementally tracked figure drifts by float rounding (three
+        # containers growing to 1.5 GB each were tracked as 4.500000000000002
+        # GB on a 4.5 GB pool); a kill must be decided on the real total.
+        self._reconcile_consumed_ram()
 
         # if we're within overall limits, we're done
         if self.consumed_ram_gb <= self.max_ram_pool:
@@ -140,6 +153,7 @@ class ResourcePool:
             if self.consumed_ram_gb <= self.max_ram_pool:
                 break
             victim.kill("OOM")
+            self._reconcile_consumed_ram()
 
     def run_one_tick(self, suspensions: List[Suspend],
                      assignments: List[Assignment]) -> List[ExecutionResult]:
